@@ -314,6 +314,7 @@ def element_scope(ctx) -> None:
 def run(ctx) -> None:
     from . import C08 as _c08
 
+    _c08.class_exact_eq(ctx)  # operand-kind checks of comparisons / set operations rest on exact kind equality
     _c08.no_call_memo(ctx)  # a conforming statement never raises: a per-call memo would hash array / map literals (TypeError)
     element_scope(ctx)
     tenv = types.TypeEnv(ctx.prog)
